@@ -11,11 +11,11 @@ namespace C06
 open Raw
 
 /-- The largest buffer length requested while reading one frame never exceeds the configured read
-    limit (or the 4 bytes of the length prefix), whatever the input and the pooled capacity. -/
-theorem C06_alloc_bound (reg : Registry) (limit cap0 : Nat) (inp : Bytes) :
-    (unpack reg limit cap0 inp).alloc ≤ max limit 4 := by
+    limit (or the 4 bytes of the length prefix), whatever the input. -/
+theorem C06_alloc_bound (reg : Registry) (limit : Nat) (inp : Bytes) :
+    (unpack reg limit inp).alloc ≤ max limit 4 := by
   rcases long_or_short inp with h | ⟨a, b, c, d, r1, rfl⟩
-  · rw [unpack_short _ _ _ _ h]; show 4 ≤ max limit 4; omega
+  · rw [unpack_short _ _ _ h]; show 4 ≤ max limit 4; omega
   · rw [unpack_cons4]
     by_cases h1 : Bytes.rdBe32 a b c d > limit
     · simp only [h1, if_true]; show 4 ≤ max limit 4; omega
@@ -23,27 +23,65 @@ theorem C06_alloc_bound (reg : Registry) (limit cap0 : Nat) (inp : Bytes) :
       by_cases h2 : Bytes.rdBe32 a b c d < 4
       · simp only [h2, if_true]; show 4 ≤ max limit 4; omega
       · simp only [h2, if_false]
-        generalize (if cap0 < Bytes.rdBe32 a b c d - 4 then Bytes.rdBe32 a b c d - 4 else cap0) = cap
-        by_cases h3 : cap < 1
+        by_cases h3 : Bytes.rdBe32 a b c d - 4 < 1
         · simp only [h3, if_true]; show max 4 (Bytes.rdBe32 a b c d - 4) ≤ max limit 4; omega
         · simp only [h3, if_false]; rw [(xfer_spec ..).1]; omega
 
+/-- **Every read request stays inside the announced frame, for ALL inputs**: the largest length one
+    `io.ReadFull` asks the connection to fill while reading one message is at most the configured read
+    limit (or the 4 bytes of the length prefix) — "make the receiver buffer more than the configured
+    per-message read limit for a single message" is impossible —, and, once the four size bytes
+    `a b c d` are there, at most what they announce beyond the prefix (`size - 4`): the reader never
+    asks for bytes that lie beyond the frame it was told about. (Before fix C06c the filter ids were
+    read before `minus` checked that they fit: a frame `00000027 ff …` with limit 64 asked for 255 bytes.) -/
+theorem C06_read_request_bounded (reg : Registry) (limit : Nat) (inp : Bytes) :
+    (unpack reg limit inp).maxReq ≤ max limit 4 ∧
+    ∀ a b c d r1, inp = a :: b :: c :: d :: r1 →
+      (unpack reg limit inp).maxReq ≤ max 4 (Bytes.rdBe32 a b c d - 4) := by
+  have key : ∀ a b c d r1, (unpack reg limit (a :: b :: c :: d :: r1)).maxReq ≤ max limit 4 ∧
+      (unpack reg limit (a :: b :: c :: d :: r1)).maxReq ≤ max 4 (Bytes.rdBe32 a b c d - 4) := by
+    intro a b c d r1
+    rw [unpack_cons4]
+    by_cases h1 : Bytes.rdBe32 a b c d > limit
+    · simp only [h1, if_true]; exact ⟨by show 4 ≤ max limit 4; omega, by show 4 ≤ max 4 _; omega⟩
+    · simp only [h1, if_false]
+      by_cases h2 : Bytes.rdBe32 a b c d < 4
+      · simp only [h2, if_true]; exact ⟨by show 4 ≤ max limit 4; omega, by show 4 ≤ max 4 _; omega⟩
+      · simp only [h2, if_false]
+        by_cases h3 : Bytes.rdBe32 a b c d - 4 < 1
+        · simp only [h3, if_true]; exact ⟨by show 4 ≤ max limit 4; omega, by show 4 ≤ max 4 _; omega⟩
+        · simp only [h3, if_false]
+          have hx := (xfer_spec reg (Bytes.rdBe32 a b c d) (Bytes.rdBe32 a b c d - 4)
+            (max 4 (Bytes.rdBe32 a b c d - 4)) (a :: b :: c :: d :: r1).length r1).2.2.2.1 (by omega)
+          exact ⟨by omega, hx⟩
+  rcases long_or_short inp with h | ⟨a, b, c, d, r1, rfl⟩
+  · rw [unpack_short _ _ _ h]
+    refine ⟨by show 4 ≤ max limit 4; omega, ?_⟩
+    intro a b c d r1 he; rw [he] at h; simp only [List.length_cons] at h; omega
+  · refine ⟨(key a b c d r1).1, ?_⟩
+    intro a' b' c' d' r1' he
+    simp only [List.cons.injEq] at he
+    obtain ⟨rfl, rfl, rfl, rfl, rfl⟩ := he
+    exact (key _ _ _ _ _).2
+
 /-- A frame announcing more than the limit is refused after exactly the 4 length bytes: its
-    payload is never consumed and nothing beyond the prefix buffer is allocated. -/
-theorem C06_oversize_early (reg : Registry) (limit cap0 : Nat) (a b c d : UInt8) (r : Bytes)
+    payload is never consumed, nothing beyond the prefix buffer is allocated and nothing beyond the
+    prefix is requested from the connection. -/
+theorem C06_oversize_early (reg : Registry) (limit : Nat) (a b c d : UInt8) (r : Bytes)
     (h : Bytes.rdBe32 a b c d > limit) :
-    isSize (unpack reg limit cap0 (a :: b :: c :: d :: r)).out = true
-    ∧ (unpack reg limit cap0 (a :: b :: c :: d :: r)).consumed = 4
-    ∧ (unpack reg limit cap0 (a :: b :: c :: d :: r)).alloc = 4 := by
+    isSize (unpack reg limit (a :: b :: c :: d :: r)).out = true
+    ∧ (unpack reg limit (a :: b :: c :: d :: r)).consumed = 4
+    ∧ (unpack reg limit (a :: b :: c :: d :: r)).alloc = 4
+    ∧ (unpack reg limit (a :: b :: c :: d :: r)).maxReq = 4 := by
   rw [unpack_cons4]
   simp only [h, if_true]
-  refine ⟨by first | rfl | trivial, by first | rfl | trivial, by first | rfl | trivial⟩
+  refine ⟨by first | rfl | trivial, by first | rfl | trivial, by first | rfl | trivial, by first | rfl | trivial⟩
 
 /-- The reader never claims to have consumed more than it was given. -/
-theorem C06_consumed_le (reg : Registry) (limit cap0 : Nat) (inp : Bytes) :
-    (unpack reg limit cap0 inp).consumed ≤ inp.length := by
+theorem C06_consumed_le (reg : Registry) (limit : Nat) (inp : Bytes) :
+    (unpack reg limit inp).consumed ≤ inp.length := by
   rcases long_or_short inp with h | ⟨a, b, c, d, r1, rfl⟩
-  · rw [unpack_short _ _ _ _ h]; exact Nat.le_refl _
+  · rw [unpack_short _ _ _ h]; exact Nat.le_refl _
   · rw [unpack_cons4]
     have hl : 4 ≤ (a :: b :: c :: d :: r1).length := by simp only [List.length_cons]; omega
     by_cases h1 : Bytes.rdBe32 a b c d > limit
@@ -52,18 +90,43 @@ theorem C06_consumed_le (reg : Registry) (limit cap0 : Nat) (inp : Bytes) :
       by_cases h2 : Bytes.rdBe32 a b c d < 4
       · simp only [h2, if_true]; exact hl
       · simp only [h2, if_false]
-        generalize (if cap0 < Bytes.rdBe32 a b c d - 4 then Bytes.rdBe32 a b c d - 4 else cap0) = cap
-        by_cases h3 : cap < 1
+        by_cases h3 : Bytes.rdBe32 a b c d - 4 < 1
         · simp only [h3, if_true]; exact hl
         · simp only [h3, if_false]; apply (xfer_spec ..).2.1; simp only [List.length_cons]; omega
+
+/-- **Nothing beyond the announced frame is consumed**: once the four size bytes `a b c d` are there,
+    whatever the outcome (message, rejection, size refusal, or the input ending inside the frame), the
+    reader has taken at most the announced `size` bytes from the connection (at least the 4 of the
+    prefix) — the bytes after the frame are left for the next message. In particular
+    `consumed ≤ 4 + size`. (Before fix C06c a frame announcing fewer bytes than its filter-id count had
+    up to 255 bytes beyond its end consumed, and a frame of size 4 one byte.) -/
+theorem C06_consumed_within_frame (reg : Registry) (limit : Nat) (a b c d : UInt8) (r1 : Bytes) :
+    (unpack reg limit (a :: b :: c :: d :: r1)).consumed ≤ max 4 (Bytes.rdBe32 a b c d) ∧
+    (unpack reg limit (a :: b :: c :: d :: r1)).consumed ≤ 4 + Bytes.rdBe32 a b c d := by
+  suffices hs : (unpack reg limit (a :: b :: c :: d :: r1)).consumed ≤ max 4 (Bytes.rdBe32 a b c d) by
+    exact ⟨hs, by omega⟩
+  rw [unpack_cons4]
+  by_cases h1 : Bytes.rdBe32 a b c d > limit
+  · simp only [h1, if_true]; show 4 ≤ max 4 _; omega
+  · simp only [h1, if_false]
+    by_cases h2 : Bytes.rdBe32 a b c d < 4
+    · simp only [h2, if_true]; show 4 ≤ max 4 _; omega
+    · simp only [h2, if_false]
+      by_cases h3 : Bytes.rdBe32 a b c d - 4 < 1
+      · simp only [h3, if_true]; show 4 ≤ max 4 _; omega
+      · simp only [h3, if_false]
+        have hx := (xfer_spec reg (Bytes.rdBe32 a b c d) (Bytes.rdBe32 a b c d - 4)
+          (max 4 (Bytes.rdBe32 a b c d - 4)) (a :: b :: c :: d :: r1).length r1).2.2.2.2 (by omega)
+          (by simp only [List.length_cons]; omega)
+        omega
 
 /-- The reader waits for more input only while the input is not exhausted: an `eof` outcome
     means every available byte was consumed (a peer that stops sending cannot leave the reader
     blocked on bytes it already has); every other outcome is decided on bytes already present. -/
-theorem C06_eof_consumes_all (reg : Registry) (limit cap0 : Nat) (inp : Bytes) :
-    isEof (unpack reg limit cap0 inp).out = true → (unpack reg limit cap0 inp).consumed = inp.length := by
+theorem C06_eof_consumes_all (reg : Registry) (limit : Nat) (inp : Bytes) :
+    isEof (unpack reg limit inp).out = true → (unpack reg limit inp).consumed = inp.length := by
   rcases long_or_short inp with hs | ⟨a, b, c, d, r1, rfl⟩
-  · rw [unpack_short _ _ _ _ hs]; intro _; rfl
+  · rw [unpack_short _ _ _ hs]; intro _; rfl
   · rw [unpack_cons4]
     by_cases h1 : Bytes.rdBe32 a b c d > limit
     · simp only [h1, if_true]; intro h; cases h
@@ -71,20 +134,19 @@ theorem C06_eof_consumes_all (reg : Registry) (limit cap0 : Nat) (inp : Bytes) :
       by_cases h2 : Bytes.rdBe32 a b c d < 4
       · simp only [h2, if_true]; intro h; cases h
       · simp only [h2, if_false]
-        generalize (if cap0 < Bytes.rdBe32 a b c d - 4 then Bytes.rdBe32 a b c d - 4 else cap0) = cap
-        by_cases h3 : cap < 1
+        by_cases h3 : Bytes.rdBe32 a b c d - 4 < 1
         · simp only [h3, if_true]; intro h; cases h
         · simp only [h3, if_false]
-          apply (xfer_spec ..).2.2
+          apply (xfer_spec ..).2.2.1
           simp only [List.length_cons]; omega
 
 /-- `Raw.unpack` is total: every byte string yields exactly one of the four outcomes (a Go panic
     is `reject`), so no input can "crash" the reader in the model. Stated as an explicit
     classification so that a model change introducing a fifth outcome breaks it. -/
-theorem C06_outcome_classified (reg : Registry) (limit cap0 : Nat) (inp : Bytes) :
-    (∃ m rest, (unpack reg limit cap0 inp).out = .ok m rest) ∨ (unpack reg limit cap0 inp).out = .eof
-    ∨ (unpack reg limit cap0 inp).out = .size ∨ (∃ why, (unpack reg limit cap0 inp).out = .reject why) := by
-  cases (unpack reg limit cap0 inp).out with
+theorem C06_outcome_classified (reg : Registry) (limit : Nat) (inp : Bytes) :
+    (∃ m rest, (unpack reg limit inp).out = .ok m rest) ∨ (unpack reg limit inp).out = .eof
+    ∨ (unpack reg limit inp).out = .size ∨ (∃ why, (unpack reg limit inp).out = .reject why) := by
+  cases (unpack reg limit inp).out with
   | ok m rest => exact Or.inl ⟨m, rest, rfl⟩
   | eof => exact Or.inr (Or.inl rfl)
   | size => exact Or.inr (Or.inr (Or.inl rfl))
@@ -92,6 +154,22 @@ theorem C06_outcome_classified (reg : Registry) (limit cap0 : Nat) (inp : Bytes)
 
 /-! Non-vacuity: a concrete oversize announcement. -/
 example : Bytes.rdBe32 0x7f 0xff 0xff 0xff > 1024 := by decide
+
+/-! The input that exposed defect C06c (`00000027 ff 02 01 02 …`, limit 64: size 39 announces 35 bytes,
+the pipe-length byte asks for 255 filter ids): rejected after 5 bytes, nothing above 4 requested; and
+the frames of size 4 (no room for the pipe-length byte) and 5 with `xferLen = 1`. -/
+example :
+    let r := unpack (fun _ => none) 64 ([0, 0, 0, 0x27, 0xff, 2, 1, 2] ++ List.replicate 300 7)
+    (match r.out with | .reject _ => true | _ => false) = true ∧ r.consumed = 5 ∧ r.maxReq = 4 := by
+  decide
+example :
+    let r := unpack (fun _ => none) 64 [0, 0, 0, 4, 9, 9]
+    (match r.out with | .reject _ => true | _ => false) = true ∧ r.consumed = 4 ∧ r.maxReq = 4 := by
+  decide
+example :
+    let r := unpack (fun _ => none) 64 [0, 0, 0, 5, 1, 9, 9]
+    (match r.out with | .reject _ => true | _ => false) = true ∧ r.consumed = 5 ∧ r.maxReq = 4 := by
+  decide
 
 /-! ## tie A: how each protocol sizes its read buffers (`Teleport.Gen.Frames`, regenerated from the
 protocol packages and `session.go` on every run by `srcfacts`). -/
@@ -118,15 +196,23 @@ theorem C06_size_check_dominates_alloc :
     ((Gen.frames_unpack_allocs.filter (fun r => r.2.2.2.1 == "data")).map (·.1)).eraseDups = ["raw", "json", "pb", "http"] := by
   decide
 
-/-- **`readMessage` has the shape of `Raw.unpack`**: a constant 4-byte buffer for the length prefix;
+/-- **`readMessage` has the shape of `Raw.unpack`, every check BEFORE the read it guards**: a constant
+    4-byte buffer for the length prefix and the read that fills it (↔ the `a :: b :: c :: d ::` pattern);
     `SetSize` (↔ `if size > limit`); `minus(lastSize, 4)` with its error returned (↔ `if size < 4 then
-    reject`); the first data-sized buffer (↔ `alloc = max 4 last`); `minus(lastSize, 1 + xferLen)` with its
-    error returned (↔ `if last < 1 + xferLen then reject` in `unpackTail`); the second data-sized buffer —
-    all unconditional; and `minus` refuses exactly a negative difference or a negative subtrahend. -/
+    reject`); the first data-sized buffer (↔ `alloc = max 4 last`); `minus(lastSize, 1)` returned (↔ `if
+    last < 1 then reject` in `unpack`) and only then the read of the pipe-length byte into `bb.B[:1]`;
+    `minus(lastSize, xferLen)` returned (↔ `if last - 1 < xl then reject` in `unpackXfer`) and only then
+    the (conditional: `xferLen > 0`) read of the filter ids into `bb.B[:xferLen]`; the second data-sized
+    buffer and the read that fills it (↔ `unpackTail`) — all but the ids read unconditional; and `minus`
+    refuses exactly a negative difference or a negative subtrahend. `C06_read_request_bounded` and
+    `C06_consumed_within_frame` rest on this order: moving a `minus` back behind its read (the code
+    before fix C06c had `read:buf[:1]`, `?read:buf[:data]`, `minus(data)`) changes the list. -/
 theorem C06_raw_read_shape :
     Gen.frames_missing = [] ∧
     Gen.frames_raw_read_landmarks =
-      ["alloc:const", "SetSize:returned", "minus:returned", "alloc:data", "minus:returned", "alloc:data"] ∧
+      ["alloc:const", "read:buf", "SetSize:returned", "minus(4):returned", "alloc:data",
+       "minus(1):returned", "read:buf[:1]", "minus(data):returned", "?read:buf[:data]",
+       "alloc:data", "read:buf"] ∧
     Gen.frames_raw_minus_guard = ["$d < 0 || $1 < 0"] := by
   decide
 
